@@ -308,7 +308,9 @@ func logFamilies() [][]logCase {
 		}
 		fam = append(fam, mk("attributes", "count", func(f *logtest.RecordFactory) { f.Attributes = as }))
 	}
-	fam = append(fam, mk("attributes", "count", func(f *logtest.RecordFactory) { f.Attributes = []api.KeyValue{api.String("", "v"), api.Bool("b", true)} }))
+	fam = append(fam, mk("attributes", "count", func(f *logtest.RecordFactory) {
+		f.Attributes = []api.KeyValue{api.String("", "v"), api.Bool("b", true)}
+	}))
 	fams = append(fams, fam)
 	// trace id x span id x flags
 	fam = nil
@@ -354,12 +356,18 @@ func logFamilies() [][]logCase {
 	}
 	// a resource with a schema URL and no attributes: alone in its batch (next to a record without
 	// resource it would be the same resource under another URL, which is not judged)
-	solo := mk("resource", "", func(f *logtest.RecordFactory) { f.Resource = resource.NewWithAttributes("https://example.test/only-url") })
+	solo := mk("resource", "", func(f *logtest.RecordFactory) {
+		f.Resource = resource.NewWithAttributes("https://example.test/only-url")
+	})
 	solo.Solo = true
 	fam = append(fam, solo)
 	fam = append(fam, mk("resource", "", func(f *logtest.RecordFactory) { f.Resource = resource.NewSchemaless(attrFamily()...) }))
-	fam = append(fam, mk("scope", "", func(f *logtest.RecordFactory) { f.InstrumentationScope = &instrumentation.Scope{SchemaURL: "https://example.test/only-url"} }))
-	fam = append(fam, mk("scope", "", func(f *logtest.RecordFactory) { f.InstrumentationScope = &instrumentation.Scope{Version: "only-version"} }))
+	fam = append(fam, mk("scope", "", func(f *logtest.RecordFactory) {
+		f.InstrumentationScope = &instrumentation.Scope{SchemaURL: "https://example.test/only-url"}
+	}))
+	fam = append(fam, mk("scope", "", func(f *logtest.RecordFactory) {
+		f.InstrumentationScope = &instrumentation.Scope{Version: "only-version"}
+	}))
 	fam = append(fam, mk("scope", "", func(f *logtest.RecordFactory) {
 		f.InstrumentationScope = &instrumentation.Scope{Name: "only-attrs", Attributes: attribute.NewSet(attrFamily()...)}
 	}))
